@@ -17,4 +17,5 @@ for d in sorted(glob.glob(os.path.join(VERIF, "seeded", "*"))):
     m = json.load(open(os.path.join(d, "meta.json")))
     print("| %s | %s | %s | %s |" % (os.path.basename(d), cell(m.get("what_it_breaks", ""), 150), cell(m.get("needs_to_manifest", ""), 130),
                                    ("(obsolete: %s)" % cell(m["obsolete"], 160)) if m.get("obsolete") else
+                                   ("(kept, not claimed — %s)" % cell(m["outside_statement"], 300)) if m.get("outside_statement") else
                                    (", ".join(m.get("caught_by", [])) or "**none**")))
